@@ -47,7 +47,8 @@ MANIFEST = {
             'arithmetic; for CF "units since reference" variables in '
             'standard calendars every unit and integer/half-integer offset '
             'decodes to reference + offset; for 365/366-day calendars the '
-            'result is compared with an independent CF-time model.',
+            'result is compared with an independent CF-time model.'
+            ' Also: the CF time coordinate synthesised from IOAPI flags (conventions.ioapi add_time_variable) equals the flags\' instants in seconds since 1970, years 1900-2200.',
     'note': 'Trusted: z3, symdatetime (differentially validated against '
             'CPython), printf %0Nd model. cftime/date2num not encoded.',
 }
